@@ -54,6 +54,7 @@ REGISTRY = {
     "X07": ("checks.x07", "run"),
     "X08": ("checks.x08", "run"),
     "X09": ("checks.x09", "run"),
+    "X10": ("checks.x10", "run"),
 }
 
 
